@@ -155,6 +155,9 @@ type Security struct {
 
 // GRPCMap is the gRPC mapping of a method.
 type GRPCMap struct {
+	// Message lists request message attributes explicitly (GRPC(func(){ Message(func(){ Attribute(..) }) }));
+	// attributes not listed (and not in Metadata) are added to the message by goa.
+	Message  []Map  `json:"message,omitempty"`
 	Metadata []Map  `json:"metadata,omitempty"`
 	Headers  []Map  `json:"headers,omitempty"`
 	Trailers []Map  `json:"trailers,omitempty"`
